@@ -1,23 +1,23 @@
 CONSTANTS
-  Pieces = {"p1", "p2", "p3"}
-  Questions = {"ND1", "NX12", "ND3"}
+  Pieces = {"p1", "p2"}
+  Questions = {"NX1", "NX12"}
   Need <- AllNeed
   Rcode <- AllRcode
   Lifetimes = {2, 5}
   Steps = {1, 3}
   Routes = {"srv", "get"}
   AliasTTL = 50
-  MaxClock = 7
+  MaxClock = 5
   MaxGen = 3
   Secure = TRUE
-  Mutant = "soaKeepsLonger"
-  Kind = "nsec"
-  Race = FALSE
-  MaxBorn = 0
-  Targets = {}
+  Mutant = "recheckSkipsNsec3"
+  Kind = "nsec3"
+  Race = TRUE
+  MaxBorn = 1
+  Targets = {"flight"}
 INIT Init
 NEXT Next
 CHECK_DEADLOCK FALSE
 VIEW StateView
-INVARIANTS
-  EntryWithinTruth
+PROPERTIES
+  ANoQuarantinedSynthesis
